@@ -5,8 +5,13 @@
 (* number, snaps = canonical deep snapshots of the whole schema graph taken   *)
 (* when no call is in flight (before the run, between calls in history mode,  *)
 (* after the run), races = number of data-race reports of the Go race         *)
-(* detector.  Requirements: every End returns its call's sequential result;   *)
-(* every call that began ended; all snapshots are equal; no race.             *)
+(* detector.  A Recheck record renders the values a call RETURNED once more   *)
+(* after later calls have run (errors with their paths, coerced maps,         *)
+(* argument maps): what was returned belongs to the caller and must not be    *)
+(* rewritten through state shared between calls.                              *)
+(* Requirements: every End returns its call's sequential result; so does      *)
+(* every Recheck; every call that began ended; all snapshots are equal; no    *)
+(* race.                                                                      *)
 EXTENDS TLC, Json, IOUtils, Integers, Sequences, FiniteSets
 
 Cases == ndJsonDeserialize(IOEnv.VERIF_TRACE)
@@ -17,10 +22,12 @@ Verdict(c) ==
   LET ends == {j \in 1..Len(c.events) : c.events[j].e = "end"}
       begins == {j \in 1..Len(c.events) : c.events[j].e = "begin"}
       wrong == {j \in ends : c.events[j].result # c.calls[c.events[j].call].alone}
+      late == {j \in 1..Len(c.events) : c.events[j].e = "recheck" /\ c.events[j].result # c.calls[c.events[j].call].alone}
       drift == {j \in 2..Len(c.snaps) : c.snaps[j] # c.snaps[1]}
   IN IF c.races > 0 THEN [class |-> "data race reported by the race detector", at |-> 0]
      ELSE IF drift # {} THEN [class |-> "the schema changed (snapshot differs from the one taken before the first call)", at |-> CHOOSE j \in drift : \A k \in drift : j <= k]
      ELSE IF wrong # {} THEN [class |-> "a concurrent call returned something else than the same call run alone", at |-> c.events[CHOOSE j \in wrong : TRUE].call]
+     ELSE IF late # {} THEN [class |-> "a value a call had returned was rewritten by a later call (state shared between calls)", at |-> c.events[CHOOSE j \in late : TRUE].call]
      ELSE IF Cardinality(ends) # Cardinality(begins) THEN [class |-> "a call did not return", at |-> 0]
      ELSE [class |-> "ok", at |-> 0]
 
